@@ -186,6 +186,11 @@ class APDCharacteristics:
         self._avalanche_bias = self.gain_to_bias_saphira(value)
         self._common_voltage = self.pixel_reset_voltage - self.avalanche_bias
 
+        # Parameters to rebuild this object (see '.to_dict')
+        self._original_avalanche_gain = value
+        self._original_pixel_reset_voltage = self._pixel_reset_voltage
+        self._original_common_voltage = None
+
     @property
     def pixel_reset_voltage(self) -> float:
         """Get pixel reset voltage."""
@@ -198,6 +203,11 @@ class APDCharacteristics:
         self._avalanche_gain = self.bias_to_gain_saphira(self.avalanche_bias)
         self._pixel_reset_voltage = value
 
+        # Parameters to rebuild this object (see '.to_dict')
+        self._original_avalanche_gain = None
+        self._original_pixel_reset_voltage = value
+        self._original_common_voltage = self._common_voltage
+
     @property
     def common_voltage(self) -> float:
         """Get common voltage."""
@@ -209,6 +219,11 @@ class APDCharacteristics:
         self._avalanche_bias = self.pixel_reset_voltage - value
         self._avalanche_gain = self.bias_to_gain_saphira(self.avalanche_bias)
         self._common_voltage = value
+
+        # Parameters to rebuild this object (see '.to_dict')
+        self._original_avalanche_gain = None
+        self._original_pixel_reset_voltage = self._pixel_reset_voltage
+        self._original_common_voltage = value
 
     @property
     def avalanche_bias(self) -> float:
